@@ -34,7 +34,7 @@ def _task(args):
 
 def run_batch(props, n, workers):
     import multiprocessing as mp
-    base = runner.scratch_root() + ".st%d" % workers
+    base = runner.scratch_root() + ".st%02d" % workers
     import os
     os.makedirs(base, exist_ok=True)
     pool = mp.get_context("fork").Pool(workers, runner._worker_init, (base,))
@@ -49,14 +49,23 @@ def run_batch(props, n, workers):
     return {(r["prop"], r["index"]): r for r in out}
 
 
+def run_batches(props, n, workers):
+    """one pool per property, as `./check <id>` runs them (a property's family list is fixed when its module is
+    imported; mixing properties in one worker process would let the import order of another property change it)"""
+    res = {}
+    for p in props:
+        res.update(run_batch([p], n, workers))
+    return res
+
+
 def main(argv):
     if not argv or argv[0] != "determinism":
         print("usage: ./check selftest determinism [N] [props...]")
         return 2
     n = int(argv[1]) if len(argv) > 1 else 8
     props = argv[2:] or DEFAULT_PROPS
-    a = run_batch(props, n, 16)
-    b = run_batch(props, n, 3)
+    a = run_batches(props, n, 16)
+    b = run_batches(props, n, 3)
     bad = 0
     total_events = 0
     for k in sorted(a):
